@@ -27,11 +27,11 @@ void Broker::on_conn_lost(const ConnPtr& c, bool) {
 int Broker::send_packet(const ConnPtr& c, const ref::Packet& p, BKind kind, int for_cpkt, int out_msg) {
     if (c->st != Conn::up || c->broker_closed) return -1;
     BPacket b; b.id = (int)w_.h.bpkts.size(); b.conn = c->id; b.seq = w_.next_seq(); b.t = w_.now();
-    b.pkt = p; b.raw = ref::encode(p); b.end_offset = c->b2c_sent + b.raw.size(); b.for_cpkt = for_cpkt; b.out_msg = out_msg; b.kind = kind;
+    b.pkt = p; b.raw = ref::encode(p); b.end_offset = c->b2c_sent + (holding_ ? held_.size() : 0) + b.raw.size(); b.for_cpkt = for_cpkt; b.out_msg = out_msg; b.kind = kind;
     w_.h.bpkts.push_back(b);
     c->undelivered_bpkts.push_back(b.id);
     w_.log(Ev::brk_tx, c->id, b.id, for_cpkt, p.str());
-    w_.broker_send(c, b.raw, b.id, 1);
+    if (holding_) held_ += b.raw; else w_.broker_send(c, b.raw, b.id, 1);
     return b.id;
 }
 
